@@ -28,6 +28,10 @@ META = {
 
 def run(ctx):
     rep = ctx.report
+    # "keeps keys attached to their examples": sort and groupby answer with self[index list], i.e. a SliceDataset; the
+    # pairing of keys and examples of that stage (C03.P) is an obligation of this property too
+    from . import c03
+    c03.rule_p(ctx, only={'SliceDataset'}, floor=1)
     base = ctx.repo.dataset_base()
     sm = base.own('sort')
     gm = base.own('groupby')
